@@ -1,6 +1,7 @@
 package main
 
 import (
+	"go/token"
 	"encoding/json"
 	"flag"
 	"fmt"
@@ -38,6 +39,8 @@ func main() {
 		os.Exit(cmdSelftest(os.Args[2:]))
 	case "replay":
 		os.Exit(cmdReplay(os.Args[2:]))
+	case "benign-writes":
+		os.Exit(cmdBenignWrites())
 	default:
 		usage()
 	}
@@ -749,4 +752,94 @@ func countIn(xs []*oblResult, lists ...[]*oblResult) int {
 		}
 	}
 	return n
+}
+
+
+// cmdBenignWrites lists the functions whose contract says assume-benign / benign although their own body
+// writes through a parameter, the receiver or a captured variable (a store, a map update, append/copy
+// into such a slice): an assumed frame that is false for the caller-visible memory it names.
+func cmdBenignWrites() int {
+	pkgProps, _ := contractPackages(repoDir)
+	var paths []string
+	for p := range pkgProps {
+		paths = append(paths, p)
+	}
+	v, err := loadVerifier(repoDir, filepath.Join(verifDir, "contracts", "external"), paths)
+	if err != nil {
+		fmt.Fprintln(os.Stderr, err)
+		return 2
+	}
+	fns, cons, _, _ := v.selectTargets("")
+	n := 0
+	for i, f := range fns {
+		con := cons[i]
+		if !(con.AssumeBenign || con.Benign) || f == nil || len(f.Blocks) == 0 {
+			continue
+		}
+		var hits []string
+		var rootOf func(x ssa.Value, depth int) string
+		rootOf = func(x ssa.Value, depth int) string {
+			if depth > 8 {
+				return ""
+			}
+			switch y := x.(type) {
+			case *ssa.Parameter:
+				return "parameter " + y.Name()
+			case *ssa.FreeVar:
+				return "captured " + y.Name()
+			case *ssa.FieldAddr:
+				return rootOf(y.X, depth+1)
+			case *ssa.IndexAddr:
+				return rootOf(y.X, depth+1)
+			case *ssa.Field:
+				return rootOf(y.X, depth+1)
+			case *ssa.UnOp:
+				if y.Op == token.MUL {
+					// a load: the value of a parameter variable (NaiveForm keeps parameters in cells)
+					if a, ok := y.X.(*ssa.Alloc); ok {
+						for _, r := range *a.Referrers() {
+							if st, ok := r.(*ssa.Store); ok && st.Addr == a {
+								if _, isPar := st.Val.(*ssa.Parameter); isPar {
+									return "parameter " + a.Comment
+								}
+							}
+						}
+						return ""
+					}
+					return rootOf(y.X, depth+1)
+				}
+			case *ssa.Slice:
+				return rootOf(y.X, depth+1)
+			case *ssa.ChangeType:
+				return rootOf(y.X, depth+1)
+			}
+			return ""
+		}
+		for _, b := range f.Blocks {
+			for _, in := range b.Instrs {
+				switch x := in.(type) {
+				case *ssa.Store:
+					if _, isAlloc := x.Addr.(*ssa.Alloc); isAlloc {
+						continue
+					}
+					if r := rootOf(x.Addr, 0); r != "" {
+						hits = append(hits, fmt.Sprintf("store through %s at %s", r, v.fset.Position(x.Pos())))
+					}
+				case *ssa.MapUpdate:
+					if r := rootOf(x.Map, 0); r != "" {
+						hits = append(hits, fmt.Sprintf("map update of %s at %s", r, v.fset.Position(x.Pos())))
+					}
+				}
+			}
+		}
+		if len(hits) > 0 {
+			n++
+			fmt.Printf("%s (%s:%d)\n", shortKey(con.Key), con.File, con.Line)
+			for _, h := range hits {
+				fmt.Println("    " + h)
+			}
+		}
+	}
+	fmt.Printf("benign-writes: %d functions\n", n)
+	return 0
 }
